@@ -9,8 +9,8 @@ from harness import zones as Z
 
 ID = "C04"
 BACKENDS = ("py", "rs")
-GEN_MODULES = ("Tables", "Helpers")
-MIN_THEOREMS = 19
+GEN_MODULES = ("Tables", "Helpers", "DTArith")
+MIN_THEOREMS = 24
 US = D.US
 DAY = 86400 * US
 YMAX = Z.YMAX_QUICK
